@@ -141,6 +141,173 @@ Proof.
     + apply IH; assumption.
 Qed.
 
+(* sequential composition of the passes *)
+Lemma cstat_app maxk : forall x a y, cstat_done maxk a = false ->
+  cstat_pass maxk a (x ++ y) =
+  if cstat_done maxk (cstat_pass maxk a x) then cstat_pass maxk a x else cstat_pass maxk (cstat_pass maxk a x) y.
+Proof.
+  induction x as [|f x IH]; intros a y Ha.
+  - cbn [app cstat_pass]. rewrite Ha. reflexivity.
+  - cbn [app cstat_pass]. destruct (key_of f) as [k|].
+    + match goal with |- context [cstat_done maxk ?a'] => destruct (cstat_done maxk a') eqn:E end.
+      * rewrite E. reflexivity.
+      * apply IH. exact E.
+    + apply IH. exact Ha.
+Qed.
+
+Lemma rot_app fp fe fm : forall x a y, is_some a = false ->
+  rot_pass fp fe fm a (x ++ y) =
+  if is_some (rot_pass fp fe fm a x) then rot_pass fp fe fm a x else rot_pass fp fe fm (rot_pass fp fe fm a x) y.
+Proof.
+  intros x a y Ha. destruct a as [k|]; [discriminate|]. clear Ha.
+  induction x as [|f x IH].
+  - cbn [app rot_pass is_some]. reflexivity.
+  - cbn [app rot_pass]. destruct (key_of f) as [k|].
+    + destruct (key_matches fp fe fm k); [reflexivity | exact IH].
+    + exact IH.
+Qed.
+
+Lemma cstatus_app : forall x a y, cstatus_done a = false ->
+  cstatus_pass a (x ++ y) =
+  if cstatus_done (cstatus_pass a x) then cstatus_pass a x else cstatus_pass (cstatus_pass a x) y.
+Proof.
+  induction x as [|f x IH]; intros a y Ha.
+  - cbn [app cstatus_pass]. rewrite Ha. reflexivity.
+  - cbn [app cstatus_pass].
+    match goal with |- context [cstatus_done ?a'] => destruct (cstatus_done a') eqn:E end.
+    + rewrite E. reflexivity.
+    + apply IH. exact E.
+Qed.
+
+(* --- the cursor map: sorted association list, first hit wins --- *)
+Fixpoint has_key (m : list (N * N)) (k : N) : bool :=
+  match m with [] => false | (k', _) :: r => (k' =? k) || has_key r k end.
+Fixpoint keys_sorted (m : list (N * N)) : bool :=
+  match m with
+  | [] => true
+  | (k, _) :: r => match r with [] => true | (k', _) :: _ => (k <? k') && keys_sorted r end
+  end.
+
+Lemma has_key_put k v m k' : has_key (put_if_absent k v m) k' = (k =? k') || has_key m k'.
+Proof.
+  induction m as [|[k0 v0] r IH]; cbn [put_if_absent has_key]; [rewrite orb_false_r; reflexivity|].
+  destruct (k <? k0) eqn:E1; [cbn [has_key]; reflexivity|].
+  destruct (k =? k0) eqn:E2.
+  - apply N.eqb_eq in E2. subst k0. cbn [has_key]. destruct (k =? k'); reflexivity.
+  - cbn [has_key]. rewrite IH. destruct (k0 =? k'), (k =? k'); reflexivity.
+Qed.
+
+Lemma sorted_head_lt k v r k' : keys_sorted ((k, v) :: r) = true -> has_key r k' = true -> k < k'.
+Proof.
+  revert k v. induction r as [|[k0 v0] r IH]; intros k v Hs Hk; [discriminate|].
+  cbn [keys_sorted] in Hs. apply andb_true_iff in Hs. destruct Hs as [Hlt Hs]. apply N.ltb_lt in Hlt.
+  cbn [has_key] in Hk. apply orb_true_iff in Hk. destruct Hk as [Hk|Hk].
+  - apply N.eqb_eq in Hk. lia.
+  - specialize (IH k0 v0 Hs Hk). lia.
+Qed.
+
+Lemma put_present k v m : keys_sorted m = true -> has_key m k = true -> put_if_absent k v m = m.
+Proof.
+  induction m as [|[k0 v0] r IH]; intros Hs Hk; [discriminate|].
+  cbn [put_if_absent]. cbn [has_key] in Hk.
+  destruct (k0 =? k) eqn:E0.
+  - apply N.eqb_eq in E0. subst k0. rewrite N.ltb_irrefl, N.eqb_refl. reflexivity.
+  - cbn [orb] in Hk. pose proof (sorted_head_lt _ _ _ _ Hs Hk) as Hlt.
+    destruct (k <? k0) eqn:E1; [apply N.ltb_lt in E1; lia|].
+    destruct (k =? k0) eqn:E2; [reflexivity|].
+    f_equal. apply IH; [|exact Hk].
+    cbn [keys_sorted] in Hs. destruct r as [|[k1 v1] r']; [reflexivity|].
+    apply andb_true_iff in Hs. tauto.
+Qed.
+
+Lemma put_sorted k v m : keys_sorted m = true -> keys_sorted (put_if_absent k v m) = true.
+Proof.
+  induction m as [|[k0 v0] r IH]; intros Hs; [reflexivity|].
+  cbn [put_if_absent].
+  destruct (k <? k0) eqn:E1; [cbn [keys_sorted]; rewrite E1; exact Hs|].
+  destruct (k =? k0) eqn:E2; [exact Hs|].
+  assert (Hr : keys_sorted r = true).
+  { cbn [keys_sorted] in Hs. destruct r as [|[k1 v1] r']; [reflexivity|]. apply andb_true_iff in Hs. tauto. }
+  specialize (IH Hr). apply N.ltb_ge in E1. apply N.eqb_neq in E2.
+  cbn [keys_sorted]. destruct (put_if_absent k v r) as [|[k1 v1] r1] eqn:Ep; [reflexivity|].
+  apply andb_true_iff. split; [|exact IH].
+  apply N.ltb_lt.
+  assert (Hk1 : has_key (put_if_absent k v r) k1 = true) by (rewrite Ep; cbn [has_key]; rewrite N.eqb_refl; reflexivity).
+  rewrite has_key_put in Hk1. apply orb_true_iff in Hk1. destruct Hk1 as [Hk1|Hk1].
+  - apply N.eqb_eq in Hk1. lia.
+  - exact (sorted_head_lt _ _ _ _ Hs Hk1).
+Qed.
+
+(* accumulator well-formedness and "covers the keys of x" *)
+Definition cstat_wf (a : cstat) : Prop :=
+  keys_sorted (cs_keys a) = true /\ (cs_keys a <> [] -> cs_active a <> None).
+Definition covered (a : cstat) (x : list frame) : Prop :=
+  forall f k, In f x -> key_of f = Some k -> has_key (cs_keys a) k = true.
+
+Lemma cstat0_wf : cstat_wf cstat0.
+Proof. split; [reflexivity | intros H; exfalso; apply H; reflexivity]. Qed.
+
+Lemma has_key_nonempty m k : has_key m k = true -> m <> [].
+Proof. destruct m; [discriminate | discriminate]. Qed.
+
+Lemma cstat_covered_noop maxk : forall x a, cstat_wf a -> covered a x -> cstat_done maxk a = false ->
+  cstat_pass maxk a x = a.
+Proof.
+  induction x as [|f x IH]; intros a Hwf Hc Hnd; [reflexivity|].
+  pose proof Hwf as [Hs Hact].
+  cbn [cstat_pass]. destruct (key_of f) as [k|] eqn:Ek.
+  - assert (Hk : has_key (cs_keys a) k = true) by (apply (Hc f k); [left; reflexivity | exact Ek]).
+    rewrite (put_present _ _ _ Hs Hk).
+    destruct (cs_active a) as [act|] eqn:Ea; [|exfalso; apply (Hact (has_key_nonempty _ _ Hk)); reflexivity].
+    assert (Heq : {| cs_active := Some act; cs_keys := cs_keys a |} = a) by (destruct a; cbn in *; subst; reflexivity).
+    rewrite Heq, Hnd. apply IH; [exact Hwf | | exact Hnd].
+    intros g k' Hg. apply Hc. right; exact Hg.
+  - apply IH; [exact Hwf | | exact Hnd]. intros g k' Hg. apply Hc. right; exact Hg.
+Qed.
+
+(* after a pass that did not saturate, the accumulator is well formed, keeps what it had and covers x *)
+Lemma cstat_pass_covers maxk : forall x a, cstat_wf a -> cstat_done maxk (cstat_pass maxk a x) = false ->
+  cstat_wf (cstat_pass maxk a x)
+  /\ (forall k, has_key (cs_keys a) k = true -> has_key (cs_keys (cstat_pass maxk a x)) k = true)
+  /\ covered (cstat_pass maxk a x) x.
+Proof.
+  induction x as [|f x IH]; intros a Hwf Hnd.
+  - cbn [cstat_pass] in *. split; [exact Hwf|]. split; [auto|]. intros g k [].
+  - cbn [cstat_pass] in *. destruct (key_of f) as [k|] eqn:Ek.
+    + set (a' := {| cs_active := match cs_active a with Some x0 => Some x0 | None => Some (fseq f) end;
+                    cs_keys := put_if_absent k (fseq f) (cs_keys a) |}) in *.
+      assert (Hwf' : cstat_wf a').
+      { destruct Hwf as [Hs Hact]. split; [apply put_sorted; exact Hs|].
+        intros _. unfold a'. cbn [cs_active]. destruct (cs_active a); discriminate. }
+      destruct (cstat_done maxk a') eqn:Ed; [congruence|].
+      destruct (IH a' Hwf' Hnd) as [Hw [Hmono Hcov]].
+      split; [exact Hw|]. split.
+      * intros k0 Hk0. apply Hmono. unfold a'. cbn [cs_keys]. rewrite has_key_put, Hk0. apply orb_true_r.
+      * intros g k0 [Hg|Hg] Hkg.
+        -- subst g. rewrite Ek in Hkg. inversion Hkg; subst k0. apply Hmono. unfold a'. cbn [cs_keys].
+           rewrite has_key_put, N.eqb_refl. reflexivity.
+        -- exact (Hcov g k0 Hg Hkg).
+    + destruct (IH a Hwf Hnd) as [Hw [Hmono Hcov]]. split; [exact Hw|]. split; [exact Hmono|].
+      intros g k0 [Hg|Hg] Hkg; [subst g; congruence | exact (Hcov g k0 Hg Hkg)].
+Qed.
+
+Lemma cstat_idem maxk x y : cstat_done maxk (cstat_pass maxk cstat0 (x ++ y)) = false ->
+  cstat_pass maxk (cstat_pass maxk cstat0 (x ++ y)) x = cstat_pass maxk cstat0 (x ++ y).
+Proof.
+  intros Hnd. destruct (cstat_pass_covers maxk (x ++ y) cstat0 cstat0_wf Hnd) as [Hw [_ Hcov]].
+  apply cstat_covered_noop; [exact Hw | | exact Hnd].
+  intros f k Hf. apply Hcov. apply in_or_app. left; exact Hf.
+Qed.
+
+Lemma rot_idem fp fe fm x y : is_some (rot_pass fp fe fm None (x ++ y)) = false ->
+  rot_pass fp fe fm (rot_pass fp fe fm None (x ++ y)) x = rot_pass fp fe fm None (x ++ y).
+Proof.
+  intros Hnd. destruct (rot_pass fp fe fm None (x ++ y)) as [k|] eqn:E; [discriminate|].
+  (* nothing matched in x ++ y, so nothing matches in x *)
+  rewrite (rot_app fp fe fm x None y eq_refl) in E.
+  destruct (rot_pass fp fe fm None x) as [k|] eqn:Ex; [cbn [is_some] in E; discriminate | reflexivity].
+Qed.
+
 (* closed form of the status pass: each field is "first hit wins" *)
 Definition orelse {B} (a b : option B) : option B := match a with Some _ => a | None => b end.
 Fixpoint first_seq (p : frame -> bool) (rl : list frame) : option N :=
@@ -175,7 +342,96 @@ Proof.
   destruct (first_seq is_schedule (rev fs)), (first_seq is_job_outcome (rev fs)); reflexivity.
 Qed.
 
+(* ------------------------------------------------------------------ loops that carry their accumulator *)
+Section LoopInvCarry.
+  Context {A : Type}.
+  Variable c : cfg.
+  Variable l : log.
+  Variable scan : N -> N -> sres frame.
+  Variable acc0 : A.
+  Variable pass : A -> list frame -> A.
+  Variable done : A -> bool.
+
+  Hypothesis Hscan : ScanSpec l scan.
+  Hypothesis Hcarry : l_clears c = false.
+  (* the pass is sequential with early exit ... *)
+  Hypothesis Happ : forall a x y, done a = false ->
+    pass a (x ++ y) = if done (pass a x) then pass a x else pass (pass a x) y.
+  (* ... and first-hit-wins: reading again frames that were already read changes nothing *)
+  Hypothesis Hidem : forall x y, done (pass acc0 (x ++ y)) = false ->
+    pass (pass acc0 (x ++ y)) x = pass acc0 (x ++ y).
+
+  Notation examine := (fun (a : A) (fs : list frame) => pass a (rev fs)).
+  Notation step := (loop_step c scan acc0 examine done).
+  Notation it := (iter c scan acc0 examine done).
+
+  Lemma carry_stop a : done a = false ->
+    forall x y, done (pass a x) = true -> pass a (x ++ y) = pass a x.
+  Proof. intros Ha x y Hd. rewrite (Happ a x y Ha), Hd. reflexivity. Qed.
+
+  Lemma step_inv_carry st : Inv l acc0 pass done st ->
+    match step st with inl st' => Inv l acc0 pass done st' | inr fin => Inv l acc0 pass done fin end.
+  Proof.
+    intros HI. unfold loop_step.
+    destruct ((l_max_bytes c <? s_tb st) || done (s_acc st)) eqn:E0; [exact HI|].
+    apply orb_false_iff in E0. destruct E0 as [_ Hnd].
+    destruct (scan (l_max_events c) (s_tb st)) as [| |evs cpl] eqn:Es; [exact HI | exact HI |].
+    destruct (Hscan _ _ _ _ Es) as [[pre' Hpre'] Hcpl].
+    rewrite Hcarry.
+    (* the new accumulator and the tail it is the pass of *)
+    assert (Hnew : done acc0 = false /\ exists fs pre, l = pre ++ fs /\ pass (s_acc st) (rev evs) = pass acc0 (rev fs)
+                                       /\ (cpl = true -> fs = l)).
+    { destruct HI as [[_ Ha]|[_ [Hd0 [fs [pre [Hl [Ha _]]]]]]].
+      - rewrite Ha in *. split; [exact Hnd|]. exists evs, pre'. repeat split; [exact Hpre' | exact Hcpl].
+      - split; [exact Hd0|].
+        rewrite Hl in Hpre'. destruct (app_eq_app _ _ _ _ Hpre') as [q [[Hp Hq]|[Hp Hq]]].
+        + (* the new window is the longer one: evs = q ++ fs *)
+          exists evs, pre'. split; [rewrite Hl; exact Hpre'|]. split; [|exact Hcpl].
+          rewrite Ha, Hq, rev_app_distr.
+          assert (Hfs : pass (pass acc0 (rev fs)) (rev fs) = pass acc0 (rev fs)).
+          { pose proof (Hidem (rev fs) []) as H. rewrite app_nil_r in H. apply H. rewrite <- Ha. exact Hnd. }
+          rewrite (Happ (pass acc0 (rev fs)) (rev fs) (rev q)) by (rewrite <- Ha; exact Hnd).
+          rewrite Hfs. rewrite (Happ acc0 (rev fs) (rev q) Hd0). reflexivity.
+        + (* the old window is the longer one: fs = q ++ evs *)
+          exists fs, pre. split; [exact Hl|]. split.
+          * rewrite Ha, Hq, rev_app_distr. apply Hidem. rewrite <- rev_app_distr, <- Hq, <- Ha. exact Hnd.
+          * intros Hc. specialize (Hcpl Hc). subst evs.
+            assert (Hlen : length l = (length pre + (length q + length l))%nat).
+            { rewrite Hl at 1. rewrite Hq, !app_length. reflexivity. }
+            destruct q as [|x q]; [exact Hq|]. cbn [length] in Hlen. lia. }
+    destruct Hnew as [Hd0 [fs [pre [Hl [Hacc Hc]]]]].
+    destruct cpl.
+    - right. cbn [s_scanned s_acc s_complete]. repeat split; [exact Hd0|].
+      exists fs, pre. repeat split; [exact Hl | exact Hacc | intros _; apply Hc; reflexivity].
+    - destruct (l_cap_break c && (l_max_bytes c <=? s_tb st)).
+      + right. cbn [s_scanned s_acc s_complete]. repeat split; [exact Hd0|].
+        exists fs, pre. repeat split; [exact Hl | exact Hacc | discriminate].
+      + right. cbn [s_scanned s_acc s_complete]. repeat split; [exact Hd0|].
+        exists fs, pre. repeat split; [exact Hl | exact Hacc | discriminate].
+  Qed.
+
+  Lemma iter_inv_carry n : forall st fin, Inv l acc0 pass done st -> it n st = Some fin -> Inv l acc0 pass done fin.
+  Proof.
+    induction n as [|n IH]; intros st fin HI H; [discriminate|].
+    cbn [iter] in H. pose proof (step_inv_carry st HI) as Hs.
+    destruct (step st) as [st'|f].
+    - exact (IH _ _ Hs H).
+    - inversion H; subst; exact Hs.
+  Qed.
+
+  Lemma run_inv_carry fin : run_loop c scan acc0 examine done = Some fin -> Inv l acc0 pass done fin.
+  Proof. unfold run_loop. apply iter_inv_carry. left. split; reflexivity. Qed.
+End LoopInvCarry.
+
 (* ------------------------------------------------------------------ per-query transparency *)
+Lemma cstatus_idem x y : cstatus_done (cstatus_pass cstatus0 (x ++ y)) = false ->
+  cstatus_pass (cstatus_pass cstatus0 (x ++ y)) x = cstatus_pass cstatus0 (x ++ y).
+Proof.
+  intros _. rewrite !cstatus_pass_closed. cbn [st_sched st_job cstatus0 orelse]. rewrite !first_seq_app.
+  destruct (first_seq is_schedule x), (first_seq is_job_outcome x); cbn [orelse];
+    destruct (first_seq is_schedule y), (first_seq is_job_outcome y); reflexivity.
+Qed.
+
 Section Queries.
   Variable c : cfg.
   Variable l : log.
@@ -195,14 +451,16 @@ Section Queries.
     apply N.ltb_lt in H1. repeat split; assumption.
   Qed.
 
+  (* provider_cursor_status_v1: by_key / active are carried across the scans *)
   Theorem cursor_status_transparent maxk :
     cursor_status_fast c maxk s l = Some (cursor_status_truth maxk l).
   Proof.
     destruct wf_parts as [Hc [Hcl [Hfb Hp]]].
     unfold cursor_status_fast, cursor_status_fast_with.
-    destruct (run_loop_some c (scan_tail s) cstat0 (cstat_examine maxk) (cstat_done maxk) Hc Hp) as [fin Hf].
+    destruct (run_loop_some (carry c) (scan_tail s) cstat0 (cstat_examine maxk) (cstat_done maxk) Hc Hp) as [fin Hf].
     rewrite Hf.
-    pose proof (run_inv c l (scan_tail s) cstat0 (cstat_pass maxk) (cstat_done maxk) Hscan Hcl fin Hf) as HI.
+    pose proof (run_inv_carry (carry c) l (scan_tail s) cstat0 (cstat_pass maxk) (cstat_done maxk) Hscan eq_refl
+                  (fun a x y H => cstat_app maxk x a y H) (cstat_idem maxk) fin Hf) as HI.
     rewrite Hfb, Hreplay. cbn [andb].
     destruct (s_scanned fin) eqn:Esc; cbn [negb orb]; [|reflexivity].
     destruct (s_complete fin || cstat_done maxk (s_acc fin)) eqn:Eex; cbn [negb]; [|reflexivity].
@@ -211,14 +469,16 @@ Section Queries.
     apply orb_true_iff in Eex. exact Eex.
   Qed.
 
+  (* provider_cursor_rotate_v1: target is carried (it is None whenever the loop goes round again) *)
   Theorem rotate_transparent fp fe fm :
     rotate_target_fast c fp fe fm s l = Some (rotate_target_truth fp fe fm l).
   Proof.
     destruct wf_parts as [Hc [Hcl [Hfb Hp]]].
     unfold rotate_target_fast.
-    destruct (run_loop_some c (scan_tail s) None (rot_examine fp fe fm) is_some Hc Hp) as [fin Hf].
+    destruct (run_loop_some (carry c) (scan_tail s) None (rot_examine fp fe fm) is_some Hc Hp) as [fin Hf].
     rewrite Hf.
-    pose proof (run_inv c l (scan_tail s) None (rot_pass fp fe fm) is_some Hscan Hcl fin Hf) as HI.
+    pose proof (run_inv_carry (carry c) l (scan_tail s) None (rot_pass fp fe fm) is_some Hscan eq_refl
+                  (fun a x y H => rot_app fp fe fm x a y H) (rot_idem fp fe fm) fin Hf) as HI.
     destruct (s_acc fin) as [k|] eqn:Ea; [|rewrite Hreplay; reflexivity].
     f_equal. unfold rotate_target_truth, rot_examine.
     destruct (s_scanned fin) eqn:Esc.
@@ -228,6 +488,7 @@ Section Queries.
     - pose proof (inv_unscanned l None (rot_pass fp fe fm) is_some fin HI Esc). congruence.
   Qed.
 
+  (* context_selection_status_v1: the Vec of decisions is cleared per scan (l_clears) *)
   Theorem selection_transparent limit :
     selection_fast c limit s l = Some (selection_truth limit l).
   Proof.
@@ -244,14 +505,16 @@ Section Queries.
       f_equal. apply (inv_truth l [] (sel_pass limit) (sel_done limit) (sel_stop limit) fin HI Esc). right; exact Ed.
   Qed.
 
+  (* compaction_status_v1: the two status options are carried, the replay fills what is missing *)
   Theorem cstatus_transparent :
     cstatus_fast c s l = Some (cstatus_truth l).
   Proof.
     destruct wf_parts as [Hc [Hcl [Hfb Hp]]].
     unfold cstatus_fast.
-    destruct (run_loop_some c (scan_tail s) cstatus0 cstatus_examine cstatus_done Hc Hp) as [fin Hf].
+    destruct (run_loop_some (carry c) (scan_tail s) cstatus0 cstatus_examine cstatus_done Hc Hp) as [fin Hf].
     rewrite Hf.
-    pose proof (run_inv c l (scan_tail s) cstatus0 cstatus_pass cstatus_done Hscan Hcl fin Hf) as HI.
+    pose proof (run_inv_carry (carry c) l (scan_tail s) cstatus0 cstatus_pass cstatus_done Hscan eq_refl
+                  (fun a x y H => cstatus_app x a y H) cstatus_idem fin Hf) as HI.
     rewrite Hreplay. unfold cstatus_truth, cstatus_examine.
     destruct (s_scanned fin) eqn:Esc.
     - destruct (cstatus_done (s_acc fin)) eqn:Ed.
